@@ -8,12 +8,14 @@ func H_C08_Reopen() {
 	defer vCleanup()
 	// Close/Open replays the same log through the same structures: a read that failed before Close must
 	// fail after Open and vice versa ("empty" and "error" are not interchangeable here)
-	vObsStrict = true
-	defer func() { vObsStrict = false }()
 	mode := EntryIdxMode(vParam("mode"))
 	rw := RWMode(vParam("rw"))
 	segs := []int64{4096, 60}
-	opt := vOptsFull(vDir(), mode, rw, rw, segs[vChoose(vParam("nseg"))], false)
+	seg := segs[vChoose(vParam("nseg"))]
+	if vParam("pre") > 0 {
+		seg = 60 // one record per data file
+	}
+	opt := vOptsFull(vDir(), mode, rw, rw, seg, false)
 	db, err := Open(opt)
 	if err != nil {
 		vFail("c08.open")
@@ -23,11 +25,14 @@ func H_C08_Reopen() {
 	if vParam("seed") == 1 {
 		seedKeys = seedState(db, vParam("profile"))
 	}
+	// pre > 0: that many concrete one-record transactions first (two-digit file ids with SegmentSize 60)
+	pre := preTxs(vParam("pre"), mode == HintKeyValAndRAMIdxMode)
+	runTxs(db, pre)
 	txs := genTxs(vParam("profile"), vParam("ntx"), vParam("maxops"))
 	for _, e := range runTxs(db, txs) {
 		vAssert("c08.update-ok", e == nil)
 	}
-	keys := append(seedKeys, kvKeysOf(txs)...)
+	keys := append(append(seedKeys, kvKeysOf(pre[:min1(len(pre))])...), kvKeysOf(txs)...)
 	structs := mode == HintKeyValAndRAMIdxMode
 	o0 := observe(db, keys, structs)
 	vReach("c08.before-close")
@@ -42,4 +47,11 @@ func H_C08_Reopen() {
 	obsDescribe("after", o1)
 	vAssert("c08.same-after-reopen", obsSame(o0, o1))
 	db2.Close()
+}
+
+func min1(n int) int {
+	if n > 1 {
+		return 1
+	}
+	return n
 }
